@@ -53,7 +53,8 @@ INLINE half.  Inline elements / tags (`<span class="x">`, `<b>`, `<a href="u">`,
 references (`&amp; &copy; &#169; &#xA9; &frac12;` ...; hexadecimal references with a lower-case `x`, the only spelling ENTITY_RE knows) are put
 into ordinary text of paragraphs, ATX / Setext headings, tight / loose list items, quotes, between emphasis, inside emphasis
 and link text.  Not inside code, link destinations, titles or image alt text, not right after a backslash, not at the very start of
-a line (a comment there is a raw BLOCK); attribute values of inline tags contain no backtick, bracket, parenthesis, backslash or `!`
+a line (a comment there is a raw BLOCK), a comment never as the only content of its paragraph / list item (the `<p>` around a lone comment is
+dropped by design); attribute values of inline tags contain no backtick, bracket, parenthesis, backslash or `!`
 (link / code / escape syntax is recognised BEFORE inline HTML by design of the pattern order, so such a value is not protected).
 White space inside a start tag is a regular shape: one or several spaces, a line break, a line break plus up to 3 spaces between the tag
 name and the first attribute and between attributes (`<a\nhref="u">`, `<span\n  class="c">`, `<img\nsrc="s"\n/>`), a line break inside a
@@ -284,6 +285,10 @@ def gen_inline_case(rng):
 
     def frame(x):
         core = x
+        # a comment that is the ONLY content of its paragraph / list item is block-level for the code (RawHtmlPostprocessor drops the <p> around
+        # a lone comment or PI, also when it was stashed by the inline pattern: `* <!--c-->` in a loose list): that is the "not wrapped" half of
+        # the statement, not "inside ordinary text" -> a comment always gets a word next to it (piece and placebo alike)
+        if kind == 'comment': x = core = 'c0 ' + x
         if wrap == 'em': core = '*' + x + ' e*'
         elif wrap == 'strong': core = '**s ' + x + '**'
         elif wrap == 'em_': core = '_u ' + x + ' u_'
